@@ -279,6 +279,10 @@ def c06_cases(tier='quick'):
         yield fam, tuple(['where=withdraw'] + cv), {'withdraw': texts}, False
         other = [(nxt.get(p.text) or P(4, p.value ^ 0x40000000, p.plen)).text for p in reversed(ps)]
         yield fam, tuple(['where=both'] + cv), {'attr': dict(BASE_ATTR), 'nlri': texts, 'withdraw': other}, False
+        # withdrawn routes together with path attributes but no NLRI (what an agent sends when it withdraws IPv4
+        # routes and carries MP_REACH / other attributes in the same message)
+        if texts:
+            yield fam, tuple(['where=withdraw+attrs'] + cv), {'attr': dict(BASE_ATTR), 'withdraw': texts}, False
 
     # 1. every single prefix
     for p in pool:
